@@ -285,7 +285,7 @@ static void real_runs(report& r, bool thorough)
     for (sz in = 0; in != inits.size(); ++in)
     for (T beta : {T(0.25), T(1)})
     for (T minw : {T(0), T(0.05L)})
-    for (sz calls : {sz(3), sz(40)})
+    for (sz calls : {sz(3), sz(40), sz(0)})     // 0: iterations of 40 calls with iterations of no call at all in between
     {
         std::string const id = tn + " run kind=" + std::to_string(kind) + " init=" + std::to_string(in) + " beta="
             + vf::dec(beta) + " min=" + vf::dec(minw) + " calls=" + std::to_string(calls);
@@ -300,8 +300,9 @@ static void real_runs(report& r, bool thorough)
             : hep::make_multi_channel_chkpt<T, vf::script_engine>(inits[in], minw, beta);
         using chk_t = decltype(chk);
         sz const iters = thorough ? 8 : 5;
-        chk = hep::multi_channel(integrand, std::vector<sz>(iters, calls), chk,
-            hep::callback<chk_t>(hep::callback_mode::silent));
+        std::vector<sz> list(iters, calls ? calls : sz(40));
+        if (calls == 0) for (sz k = 1; k < iters; k += 2) list[k] = 0;
+        chk = hep::multi_channel(integrand, list, chk, hep::callback<chk_t>(hep::callback_mode::silent));
         auto const& res = chk.results();
         if (res.size() != iters) { r.count("runs_stopped_early"); }
         for (sz k = 0; k != res.size(); ++k)
@@ -333,8 +334,9 @@ static void mpi_runs(report& r)
     for (int world : {2, 3})
     for (int kind : {0, 1, 2})
     for (T minw : {T(0), T(0.05L)})
+    for (int resumed = 0; resumed != 2; ++resumed)     // 1: the MPI run continues a serial run of two iterations
     {
-        std::string const id = tn + " mpirun world=" + std::to_string(world) + " kind=" + std::to_string(kind) + " min=" + vf::dec(minw);
+        std::string const id = tn + " mpirun world=" + std::to_string(world) + " kind=" + std::to_string(kind) + " min=" + vf::dec(minw) + (resumed ? " resumed" : "");
         if (!r.want(id)) continue;
         r.eval();
         vf::script_engine::table().clear();
@@ -344,10 +346,13 @@ static void mpi_runs(report& r)
         auto integrand = hep::make_multi_channel_integrand<T>(peak_fn<T>{kind}, 1, map, 1, 3);
         auto fresh = [&]() { return hep::make_multi_channel_chkpt<T, vf::script_engine>(std::vector<T>{T(1), T(0), T(2)}, minw, beta); };
         auto chk0 = fresh();
+        auto start = fresh();
+        if (resumed) start = hep::multi_channel(integrand, std::vector<sz>{29, 37}, start, vf::never_stop());
         std::vector<std::string> texts(world);
         vf::mpi_env env(world);
         auto out = env.run([&](int rank) {
-            auto c = hep::mpi_multi_channel(MPI_COMM_WORLD, integrand, std::vector<sz>(5, 31), fresh(), vf::never_stop_mpi());
+            // the second iteration leaves ranks without a call, the fourth one has no call at all
+            auto c = hep::mpi_multi_channel(MPI_COMM_WORLD, integrand, std::vector<sz>{31, 1, 31, 0, 31}, start, vf::never_stop_mpi());
             std::ostringstream o; c.serialize(o); texts[rank] = o.str();
             if (rank == 0) chk0 = c;
         });
